@@ -14,6 +14,7 @@ import datetime
 import importlib
 import random
 import shutil
+import time
 import warnings
 from concurrent.futures import ProcessPoolExecutor
 
@@ -936,17 +937,72 @@ def monitor_cases(ctx):
     return cases
 
 
+def _monitor_worker(cases, tmp, q):
+    """Runs its cases one by one, announcing each before it starts: if the interpreter itself dies inside an
+    operation (a C extension aborting under the memory cap, a segfault) the parent knows which case it was."""
+    for i, case in cases:
+        q.put(("start", i, None))
+        q.put(("done", i, _monitor_chunk(([case], tmp))[0]))
+    q.put(("end", -1, None))
+
+
 def run_monitor(ctx, cases):
+    import multiprocessing as mp
+    import queue as _queue
+
     tmp = ctx.build / "tmp"
     shutil.rmtree(tmp, ignore_errors=True)
     tmp.mkdir(parents=True)
-    chunks = [cases[i::16] for i in range(16)]
-    results = []
-    with ProcessPoolExecutor(max_workers=16) as ex:
-        for part in ex.map(_monitor_chunk, [(c, str(tmp)) for c in chunks]):
-            results += part
+    mpc = mp.get_context("fork")
+    q = mpc.Queue()
+    indexed = list(enumerate(cases))
+    pending = {w: indexed[w::16] for w in range(16)}
+    procs, current, results, crashed = {}, {}, {}, []
+
+    def launch(w):
+        if pending[w]:
+            procs[w] = mpc.Process(target=_monitor_worker, args=(pending[w], str(tmp), q), daemon=True)
+            procs[w].start()
+
+    owner = {i: w for w, lst in pending.items() for i, _ in lst}
+    for w in range(16):
+        launch(w)
+    deadline = time.time() + (1500 if ctx.quick else 6000)
+    while procs and time.time() < deadline:
+        try:
+            kind, i, payload = q.get(timeout=1.0)
+        except _queue.Empty:
+            kind = None
+        if kind == "start":
+            current[owner[i]] = i
+        elif kind == "done":
+            results[i] = payload
+            w = owner[i]
+            pending[w] = [(j, c) for j, c in pending[w] if j != i]
+            current.pop(w, None)
+        for w, pr in list(procs.items()):
+            if not pr.is_alive() and q.empty():
+                pr.join()
+                del procs[w]
+                if w in current:                     # the interpreter died inside this case: skip it, go on
+                    i = current.pop(w)
+                    crashed.append(cases[i])
+                    results[i] = (cases[i], {"info": {}, "trace": [("<case>", "skipped:interpreter-died")]}, [])
+                    pending[w] = [(j, c) for j, c in pending[w] if j != i]
+                if pending[w] and pr.exitcode != 0:
+                    launch(w)
+                elif pending[w]:                     # exited cleanly but results still in flight
+                    procs[w] = pr
+    for pr in procs.values():
+        if pr.is_alive():
+            pr.terminate()
+    for i, case in indexed:
+        results.setdefault(i, (case, {"info": {}, "trace": [("<case>", "skipped:not-run")]}, []))
     shutil.rmtree(tmp, ignore_errors=True)
-    return results
+    if crashed:
+        ctx.notes.append(f"{len(crashed)} monitor case(s) killed the worker interpreter and were skipped: " + repr(crashed[:3]))
+        ctx.log(f"monitor: {len(crashed)} case(s) killed the worker interpreter (skipped): {crashed[:2]}")
+    return [results[i] for i, _ in indexed]
 
 
 # ------------------------------------------------------------------------------------------ the check
